@@ -324,28 +324,22 @@ Proof.
 Qed.
 
 (* ------------------------------------------------------------------ uc_cput *)
-(* the cells o .. o + |vs| - 1 of a block replaced by vs, every other cell kept *)
-Definition put_cells (blk : block) (o : nat) (vs : list val) : block :=
-  firstn o blk ++ vs ++ skipn (o + length vs) blk.
-Lemma put_cells_nil blk o : put_cells blk o [] = blk.
-Proof. unfold put_cells. cbn [app length]. rewrite Nat.add_0_r. apply firstn_skipn. Qed.
-Lemma put_cells_snoc blk o vs v : (o + length vs < length blk)%nat ->
+(* CLiteProps.put_cells blk o vs: the cells o .. o + |vs| - 1 of a block replaced by vs, every other cell kept *)
+Lemma put_cells_snoc (blk : block) o vs v : (o + length vs < length blk)%nat ->
   upd (put_cells blk o vs) (o + length vs) v = put_cells blk o (vs ++ [v]).
 Proof.
   intro H. unfold put_cells. rewrite app_assoc.
   assert (L : length (firstn o blk ++ vs) = (o + length vs)%nat) by (rewrite app_length, firstn_length; lia).
   rewrite <- L. rewrite upd_prefix by lia. rewrite L, <- !app_assoc. do 3 f_equal. f_equal. rewrite app_length. cbn [length]. lia.
 Qed.
-Lemma put_cells_length blk o vs : (o + length vs <= length blk)%nat -> length (put_cells blk o vs) = length blk.
-Proof. intro H. unfold put_cells. rewrite !app_length, firstn_length, skipn_length. lia. Qed.
 (* what a cell of the new block holds *)
-Lemma put_cells_inside blk o vs k : (o <= length blk)%nat -> (k < length vs)%nat ->
+Lemma put_cells_inside (blk : block) o vs k : (o <= length blk)%nat -> (k < length vs)%nat ->
   nth_error (put_cells blk o vs) (o + k) = nth_error vs k.
 Proof.
   intros Ho Hk. unfold put_cells. rewrite nth_error_app2 by (rewrite firstn_length; lia).
   rewrite firstn_length, Nat.min_l by lia. replace (o + k - o)%nat with k by lia. apply nth_error_app1. exact Hk.
 Qed.
-Lemma put_cells_outside blk o vs k : (o + length vs <= length blk)%nat -> (k < o \/ o + length vs <= k)%nat ->
+Lemma put_cells_outside (blk : block) o vs k : (o + length vs <= length blk)%nat -> (k < o \/ o + length vs <= k)%nat ->
   nth_error (put_cells blk o vs) k = nth_error blk k.
 Proof.
   intros Ho Hk. unfold put_cells. destruct Hk as [Hk|Hk].
